@@ -83,17 +83,36 @@ func checkC06(c *Ctx) {
 	// ---- R1 -----------------------------------------------------------------------
 	c.check(goSpawn.Tracked, "R1", "follower loop tracked in "+shortFn(unit), goSite, "wg.Add(1) before go, deferred wg.Done in the goroutine")
 	must := m.GuardsAt(goSite)
-	gs := append(append([]Lit{}, must...), m.controlConds(goSite)...)
+	gs := append(append([]Lit{}, must...), m.controlCondsDeep(goSite, 0)...)
 	var foreign []string
 	for i, l := range gs {
 		s := l.S.String()
 		switch {
-		case l.Derived:
+		case l.Derived && !strings.Contains(s, m.ImplName+"."):
+		case i >= len(must) && func() bool {
+			// the verdict of a predicate of this unit (termMatches(term), ...): the conditions that
+			// decide it are in this list as well (controlCondsDeep) and are judged there
+			call, _, _, _, ok := m.resultTest(l)
+			if !ok {
+				return false
+			}
+			h := call.Call.StaticCallee()
+			return h != nil && m.isLib(h) && len(m.callers[h]) == 1
+		}():
 		case i >= len(must) && (m.isClaimLoadSym(l.S) || m.isClaimValueSym(l.S)):
 			// a deciding (not a holding) condition: "still leader and not asked to demote"
 			// returns early - there is nothing to follow yet
 		case i >= len(must) && l.S.Op == "param" && l.S.V != nil && isBoolType(l.S.V.Type()):
 			// the unit's mode flag (demote / stay follower) in that early return
+		case l.S.Op == "phi" && func() bool {
+			// the value of a predicate `term == nil || e.termCtx == term`
+			for _, a := range l.S.Args {
+				if a.Op != "const" && !m.isTermIdentityLit(Lit{S: a, Truth: true}) {
+					return false
+				}
+			}
+			return len(l.S.Args) > 0
+		}():
 		case i >= len(must) && m.isTermIdentityLit(l):
 			// a demotion bound to one term (issued by that term's loops) does nothing when the term is
 			// no longer current: the demotion that ended it has started the follower loop
